@@ -4,9 +4,11 @@
 // a file relic's own verifier rejected; since the fix machos.Sign refuses ("image too large: ...", exit status 2 here).
 // Usage: machobig [textMB]   (default 800; needs about 3x that much memory, a few seconds)
 //        With a size below the threshold (e.g. 700) the image is signed and verifies.
-//        machobig reuse [regionBytes]   (default 10000008) what the fix leaves open (Lean: Regular.oldSmall,
-//        Relic.Props.C01.macho_reused_oversize_region_refused): a small image that ALREADY carries a signature region of more
-//        than 10e6 bytes, at least as large as the estimate: the region is reused without a size test, sign: ok, verify: error.
+//        machobig reuse [regionBytes]   (default 10000008) finding F-MACHO-3b (fixed in /repo e678460; Lean:
+//        Relic.Props.C01.macho_reused_oversize_region_refused_orig, macho_sign_refuses_oversize_reuse): a small image that
+//        ALREADY carries a signature region of more than 10e6 bytes, at least as large as the estimate.  Before the fix the
+//        region was reused without a size test: sign: ok, verify: error.  Since the fix machos.Sign refuses (exit status 2);
+//        with a region of exactly 10000000 bytes the image is signed and verifies.
 package main
 
 import (
